@@ -207,4 +207,4 @@ class Davenport:
         K[1:, 1:] = S - sigma*np.eye(3)
         K[0, 1:] = K[1:, 0] = z
         w, v = np.linalg.eig(K)
-        return v[:, np.argmax(w)]       # Eigenvector associated to largest eigenvalue is optimal quaternion
+        return v[:, np.argmax(w.real)].real     # Eigenvector associated to largest eigenvalue is optimal quaternion (K is symmetric: real)
